@@ -110,7 +110,17 @@ pub fn mutate_file(g: &mut Gen, text: &str) -> (String, String) {
 fn mutate_model(g: &mut Gen, f: &mut SynthFont) -> String {
     let n = f.glyphs.len();
     let names: Vec<String> = f.glyphs.iter().map(|x| x.name.clone()).collect();
-    match g.below(7) {
+    match g.below(9) {
+        7 => { // a cycle that exists only through a non-default master: there glyph i is a composite of j, which uses i everywhere
+            if n >= 2 { let i = g.below(n); let j = (i + 1 + g.below(n - 1)) % n; let (a, b) = (names[i].clone(), names[j].clone());
+                let ks: Vec<usize> = f.glyphs[i].sources.keys().copied().filter(|k| *k != 0).collect();
+                if let Some(&k) = ks.first() { if let Some(s) = f.glyphs[i].sources.get_mut(&k) { s.contours.clear(); s.comps = vec![Comp { base: b.clone(), xf: IDENT }]; } }
+                for s in f.glyphs[j].sources.values_mut() { s.comps.push(Comp { base: a.clone(), xf: [1.0, 0.0, 0.0, 1.0, 3.0, 0.0] }); } }
+            "component-cycle-in-one-master".into() }
+        8 => { // the glyph every font must have is marked as not exported
+            if let Some(gl) = f.glyphs.iter_mut().find(|x| x.name == ".notdef") { gl.export = false; }
+            if !f.skip_export.iter().any(|x| x == ".notdef") { f.skip_export.push(".notdef".into()); }
+            "notdef-not-exported".into() }
         0 => { let i = g.below(n); let me = names[i].clone(); for s in f.glyphs[i].sources.values_mut() { s.comps.push(Comp { base: me.clone(), xf: IDENT }); } "component-self-reference".into() }
         1 => { if n >= 2 { let i = g.below(n); let j = (i + 1 + g.below(n - 1)) % n; let (a, b) = (names[i].clone(), names[j].clone());
                 for s in f.glyphs[i].sources.values_mut() { s.comps = vec![Comp { base: b.clone(), xf: IDENT }]; s.contours.clear(); }
@@ -159,6 +169,21 @@ pub fn check_synth(ctx: &Ctx, genome: &[u16]) -> CaseReport {
         match mg.below(12) {
             0 => { files.remove(&k); classes.push(format!("drop-file:{}", k.rsplit('/').next().unwrap_or(&k).split('.').last().unwrap_or(""))); }
             1 => { let soup: String = (0..1 + mg.below(30)).map(|_| format!("{} ", mg.pick(LEXICON))).collect(); files.insert("M0.ufo/features.fea".into(), soup); classes.push("fea-token-soup".into()); }
+            4 | 5 => { // a feature file of the repository's own test data as this font's features, damaged by 1-2 edits
+                let corpus = crate::props::c13::corpus(ctx);
+                if !corpus.files.is_empty() {
+                    let (_, text) = &corpus.files[mg.below(corpus.files.len())];
+                    let mut t = text.clone(); let mut cs = vec![];
+                    // leave a block unclosed: drop one line that closes one
+                    if mg.chance(1, 2) {
+                        let closers: Vec<(usize, usize)> = { let mut v = vec![]; let mut off = 0; for l in t.split_inclusive('\n') { if l.trim_start().starts_with('}') { v.push((off, off + l.len())); } off += l.len(); } v };
+                        if !closers.is_empty() { let (a, b) = closers[mg.below(closers.len())]; t.replace_range(a..b, ""); cs.push("unclosed-block".to_string()); }
+                    } else { mg.word(); }
+                    for _ in 0..mg.below(2) + if cs.is_empty() { 1 } else { 0 } { let (t2, c) = mutate_file(&mut mg, &t); t = t2; cs.push(c); }
+                    files.insert("M0.ufo/features.fea".into(), t);
+                    classes.push(format!("fea-corpus-file+{}", cs.join("+")));
+                }
+            }
             3 => { // a numeric fontinfo field of some master becomes a number that is not one
                 let infos: Vec<String> = files.keys().filter(|k| k.ends_with("fontinfo.plist")).cloned().collect();
                 if !infos.is_empty() {
@@ -284,5 +309,5 @@ pub fn parts() -> Vec<Part> {
         Part { name: "corpus", genome_len: 40, cases_quick: 1000, cases_thorough: 100_000, threads: 16, max_shrink_iters: 60, check: Box::new(check_corpus), remote: None },
     ]
 }
-pub const RULE: &str = "synth: a generated valid source under a structural mutation of the model (component self-reference, 2-cycle, long cycle, cycle through a non-export glyph, two masters at one location, no master at the default, NaN transform / negative advance) and/or 1-3 file mutations (drop a file, truncate, replace a number or attribute value by a huge / NaN / empty / non-ASCII one, delete or duplicate a line, delete bytes, insert syntax characters, rename a word, deep nesting, repeat a segment, change point types, FEA token soup); corpus: a copied fixture (UFO / designspace with its UFOs / Glyphs 2+3 / package / fontra) under 1-3 file mutations. Each case runs the fontc binary (30-60 s watchdog, 4 GiB address space). Accepted: exit 0 + a font that passes the container/required-table/traversal/count checks, or exit 1 + a diagnostic + no font. Violations: hang, death by signal (stack overflow, abort, OOM), exit 0 without font or with a bogus font, failure status with a font written, a panic escaping with status 101, any other status. non-trivial = outcome is not a normal build, or the mutation was structural; distinct = hash of the mutated tree";
+pub const RULE: &str = "synth: a generated valid source under a structural mutation of the model (component self-reference, 2-cycle, long cycle, cycle through a non-export glyph, a cycle that exists only in a non-default master, .notdef marked non-export, two masters at one location, no master at the default, NaN transform / negative advance) and/or 1-3 file mutations (drop a file, truncate, replace a number or attribute value by a huge / NaN / empty / non-ASCII one, delete or duplicate a line, delete bytes, insert syntax characters, rename a word, deep nesting, repeat a segment, change point types, FEA token soup, a feature file of the repository's test data under 1-2 such edits as the font's features); corpus: a copied fixture (UFO / designspace with its UFOs / Glyphs 2+3 / package / fontra) under 1-3 file mutations. Each case runs the fontc binary (30-60 s watchdog, 4 GiB address space). Accepted: exit 0 + a font that passes the container/required-table/traversal/count checks, or exit 1 + a diagnostic + no font. Violations: hang, death by signal (stack overflow, abort, OOM), exit 0 without font or with a bogus font, failure status with a font written, a panic escaping with status 101, any other status. non-trivial = outcome is not a normal build, or the mutation was structural; distinct = hash of the mutated tree";
 pub const ASSUMPTIONS: &[&str] = &["a panic that escapes on the main thread (exit 101) counts as a crash: main.rs documents 'any Err -> message + exit 1' and job panics are deliberately converted to errors; panics inside jobs that arrive as exit 1 with a message are accepted", "the thorough tier repeats every case with the release binary and requires the same outcome kind"];
